@@ -16,7 +16,7 @@ if args and args[0].startswith("-j"):
     W = int(args.pop(0)[2:])
 only = args
 ids = [i for i in ids if not only or i in only]
-CHECKS = [f"C{i:02d}" for i in range(1, 21)]
+CHECKS = os.environ.get("LVC_CHECKS", "").split() or [f"C{i:02d}" for i in range(1, 21)]      # LVC_CHECKS="C11 C13": partial re-run (RESULTS.md is then left alone)
 
 
 def one(wt, rp, rid):
@@ -56,7 +56,7 @@ def worker(w, mine):
 parts = [ids[w::W] for w in range(W)]
 with ThreadPoolExecutor(W) as ex:
     rows = sorted(r for part in ex.map(worker, range(W), parts) for r in part)
-if not only:
+if not only and not os.environ.get("LVC_CHECKS"):
     with open(os.path.join(ROOT, "refactors", "RESULTS.md"), "w") as f:
         f.write("| refactoring set | all 20 quick checks | obligations | violations / undecided |\n|---|---|---|---|\n")
         for row in rows:
